@@ -68,6 +68,7 @@ def step (t : List String) : String :=
   match t with
   | ["consts"] =>
     s!"ok {params.pool} {yearOf params (10 ^ 20)} {params.days} {legacyEnding} {mintTimeBegin} {mintTimeEnd}"
+  | ["horizon"] => s!"ok {horizonYear params}"
   | ["batch", b] => match b.toNat? with | some b => showOpt (mintBatchSize params b) | none => "bad-op"
   | ["pool", b] => match b.toNat? with | some b => showOpt (poolSize params b) | none => "bad-op"
   | ["multi", a, b] =>
